@@ -245,18 +245,19 @@ def run_cases(ck: Check, n: int):
             lv_min, lv_max = x0[-2], rec["ub"][-2]
         else:
             lv_min, lv_max = 0.0, 0.0
-        # the fitted region: the candidate's boolean image dilated 1 + int(2 w) times (in cells), nothing else
+        # the fitted region: the candidate's boolean image dilated 1 + int(2 w / dx) times (w in cells: repair 8d4e282), nothing else
         if "dilation" in rec:
             from scipy import ndimage as _nd
 
             pw = cand0.interface_width if wset else float(grid.typical_discretization)
             dmask, its, nsel = rec["dilation"]
-            reqs.append(f"c04 iterations {fbits(float(pw))}")
+            tdx = float(grid.typical_discretization)
+            reqs.append(f"c04 iterations {fbits(float(pw))} {fbits(tdx)}")
             expect.append(("iterations", case, int(its)))
-            ref = int(np.sum(_nd.binary_dilation(dmask, iterations=1 + int(2 * pw))))
+            ref = int(np.sum(_nd.binary_dilation(dmask, iterations=1 + int(2 * (pw / tdx)))))
             ck.count("fit_region_checked")
             if rec.get("n_residuals") != ref or nsel != ref:
-                ck.mismatch("c04-refine", f"fit region has {rec.get('n_residuals')} cells; the candidate's image dilated 1 + int(2 w) = {1 + int(2 * pw)} times has {ref}", case)
+                ck.mismatch("c04-refine", f"fit region has {rec.get('n_residuals')} cells; the candidate's image dilated 1 + int(2 w / dx) = {1 + int(2 * (pw / tdx))} times has {ref}", case)
         pax = {ax: (lo, L) for ax, lo, L in periodic_axes(grid)}
         axes = " ".join(f"{fbits(pax[a][0])}:{fbits(pax[a][1])}" if a in pax else "-" for a in range(grid.dim))
         head = f"{grid.dim} {modes} {int(adjust)} {len(cons)} " + " ".join(map(str, cons))
